@@ -66,6 +66,8 @@ func checkC20(c *Ctx) {
 	lockBalance(c, func(cl string) bool {
 		return cl == "service.service.wmu" || strings.HasPrefix(cl, "sessions.Ackqueue.")
 	}, "write-mutex/ack-queue")
+	// the callbacks a client runs are those registered through it
+	c.providerWiring(false, true)
 }
 
 func (c *Ctx) clientConnect(fn *ssa.Function) {
